@@ -45,7 +45,8 @@ def norm_allow(sd):
             def fix(ch):
                 for c in ch or []:
                     if c["type"] == "code_inline":
-                        c["content"] = re.sub(r"[ \t]+", " ", c["content"])
+                        # blank runs of a span continued on the next line; the one-space padding rule then strips differently
+                        c["content"] = re.sub(r"[ \t]+", " ", c["content"]).strip(" ")
                     elif c["type"] in ("image", "text", "html_inline"):
                         c["content"] = re.sub(r"\n[ \t]+", "\n", c["content"])
                         if c["type"] == "image" and isinstance(c["attrs"].get("alt"), str):
